@@ -36,7 +36,7 @@ package coverage
 //@ func (table Table) EncodeLen() (n int)   props: C08 C01
 //@   requires covValid(table) && len(table) <= 65535
 //@   modifies nothing
-//@   ensures n >= 4
+//@   ensures n >= 4 && n <= 4 + 2*len(table)
 //@   return_assert n == ite(format1Length <= format2Length, format1Length, format2Length)
 
 // Encode: the number of bytes emitted equals the size computed by encInfo
@@ -92,3 +92,22 @@ package coverage
 //@     invariant forall g uint16 :: has(table, g) ==> 0 <= table[g] && table[g] < pos && g < gid
 //@     invariant forall g1 uint16 :: forall g2 uint16 :: has(table, g1) && has(table, g2) && g1 < g2 ==> table[g1] < table[g2]
 //@     decreases endGlyphID + 1 - gid
+
+// Set.Glyphs: the glyphs of the set, each once, in increasing order.
+//@ func (set Set) Glyphs() (res []glyph.ID)   props: C08
+//@   ensures len(res) == len(set) && (isnil(res) || fresh(res))
+//@   ensures forall i int :: 0 <= i && i < len(res) ==> has(set, res[i])
+//@   ensures forall i int :: forall j int :: 0 <= i && i < j && j < len(res) ==> res[i] < res[j]
+//@   ensures forall g uint16 :: has(set, g) ==> exists i int :: 0 <= i && i < len(res) && res[i] == g
+//@   modifies nothing
+
+// Set.ToTable: a valid coverage table over exactly the glyphs of the set
+// (coverage indices 0..n-1 in order of increasing glyph ID).
+//@ func (set Set) ToTable() (table Table)   props: C08
+//@   ensures table != nil && fresh(table) && len(table) == len(set) && covValid(table)
+//@   ensures forall g uint16 :: has(table, g) == has(set, g)
+//@   modifies nothing
+//@   loop 0
+//@     invariant table != nil && fresh(table) && len(table) == iter
+//@     invariant forall k int :: 0 <= k && k < iter ==> has(table, glyphs[k]) && table[glyphs[k]] == k
+//@     invariant forall g uint16 :: has(table, g) ==> exists k int :: 0 <= k && k < iter && glyphs[k] == g && table[g] == k
